@@ -83,6 +83,7 @@ package bigbuff
 
 //@ func var:waitDuration
 //@   props C18
+//@   requires ctx : ctx != nil
 //@   nopanic always : true
 //@   # the back off ends with the caller's context
 //@   cancellable byctx : ctxdone(ctx)
@@ -208,6 +209,8 @@ package bigbuff
 
 //@ func (*Channel).Get$1
 //@   props C13 C12
+//@   # a closed consumer ends the polling round with the error set: Get cannot spin on a cancelled context
+//@   ensures closed_stops : lasterr(c.ctx) != nil ==> ret
 //@   after-call (reflect.Value).TryRecv#0 assume history : ret1 ==> iface(ret0) == taken(c, c.k + len(c.buffer))
 //@   at-call (reflect.Value).TryRecv#0 open : lasterr(c.ctx) == nil && heldW(c.mutex) && c.rollback == 0
 
@@ -548,7 +551,7 @@ package bigbuff
 
 //@ func (*Buffer).get
 //@   props C01 C03 C05 C12
-//@   requires recv : b != nil
+//@   requires recv : b != nil && b.ctx != nil
 //@   holds R : b.mutex
 //@   requires member : true
 //@   nopanic always : true
@@ -874,6 +877,8 @@ package bigbuff
 //@   ensures ranged : icalls("Range") == 1 ==> ret == ilast("Range", 0) && icalls("(*Buffer).Diff") == 1 && ilast("(*Buffer).Diff", 1) && ilast("(*Buffer).Diff", 0) > 0
 //@   ensures nothing : fn != nil && icalls("(*Buffer).Diff") == 1 && (!ilast("(*Buffer).Diff", 1) || ilast("(*Buffer).Diff", 0) <= 0) ==> ret == nil && icalls("Range") == 0
 //@   ensures own : fn != nil && is(c, *consumer) && as(c, *consumer) != nil && as(c, *consumer).producer == box(b) ==> icalls("(*Buffer).Diff") == 1
+//@   # ... and whenever at least one value is available the package-level Range is entered
+//@   ensures something : fn != nil && icalls("(*Buffer).Diff") == 1 && ilast("(*Buffer).Diff", 1) && ilast("(*Buffer).Diff", 0) > 0 ==> icalls("Range") == 1
 //@   at-call Range#0 forward : arg0 == ctx && arg1 == c
 
 //@ func (*Buffer).Range$1
@@ -898,6 +903,8 @@ package bigbuff
 //@   # whatever ends the cleanup goroutine (context cancelled, or a panicking cleaner), the buffer is closed
 //@   ensures closes : icalls("(*Buffer).Close") == 1
 //@   ensures-panic closes_p : icalls("(*Buffer).Close") == 1
+//@   # the goroutine itself panics only on an error of the wait that is not the cancellation of the buffer's context
+//@   at-panic #0 unexpected : now(err) != nil && lasterr(b.ctx) == nil
 //@   loop WaitCond>0 invariant mon : inv(b.mutex) && heldW(b.mutex) && mutex != nil
 
 //@ # The cooldown state machine: `timer` (non-nil while cooling down) and `broadcast` (a run was skipped while
@@ -1148,7 +1155,7 @@ package bigbuff
 
 //@ func (*Channel).cleanup
 //@   props C12 C13
-//@   requires recv : c != nil
+//@   requires recv : c != nil && c.ctx != nil
 //@   maypanic
 //@   # the cleanup goroutine closes the channel consumer as soon as its context is cancelled
 //@   at-call (*Channel).Close#0 aftercancel : cancelled(c.ctx)
@@ -1380,6 +1387,9 @@ package bigbuff
 //@   # a cancelled publisher context publishes nothing; with subscribers present the whole registry of the key is walked
 //@   ensures precancelled : ctx != nil && old(cancelled(ctx)) ==> icalls("reflect.Select") == 0
 //@   ensures walked : len(keySubscribers) != 0 ==> mapiter0 == len(keySubscribers)
+//@   # Publish returns only when every offered send case has been retired (delivered, or its subscriber cancelled), or when
+//@   # the publisher's own context (the one exit case, at index 0) was the chosen case
+//@   ensures drained : len(keySubscribers) != 0 && !(ctx != nil && old(cancelled(ctx))) ==> len(now(successCases)) == 0 || (ctx != nil && icalls("reflect.Select") >= 1 && ilast("reflect.Select", 0) == 0)
 //@   # the publisher's context (and only it) is the exit case; every Select retires exactly the chosen success case
 //@   at-call reflect.Select#0 interruptible : len(exitCases) == ite(ctx != nil, 1, 0) && len(arg0) == len(exitCases) + len(failureCases) + len(successCases)
 //@   at-call builtin.append#0 exitcase : ctx != nil
@@ -1421,6 +1431,8 @@ package bigbuff
 //@   props C15
 //@   requires recv : n != nil
 //@   action mutex
+//@   # the 'not found' panic is raised only for a subscription that is not registered
+//@   at-panic #0 absent : !(has(n.subscribers, key) && has(n.subscribers[key], rv_pointer(rv_of(target))))
 //@   ensures removed : !(has(n.subscribers, key) && has(n.subscribers[key], rv_pointer(rv_of(target))))
 //@   # every other subscription (other key, or other target under the same key) is still there, unchanged
 //@   ensures others : forall(k, any, forall(p, int, old(has(n.subscribers, k)) && old(has(n.subscribers[k], p)) && !(k == key && p == rv_pointer(rv_of(target))) ==> has(n.subscribers, k) && has(n.subscribers[k], p) && n.subscribers[k][p].ctx == old(n.subscribers[k][p].ctx) && n.subscribers[k][p].target == old(n.subscribers[k][p].target)))
@@ -1552,6 +1564,7 @@ package bigbuff
 //@   panics oob_lo : delta < -2147483647
 //@   panics oob_hi : delta > 2147483647
 //@   loop 0 lock-if R x.sendingMu : ok
+//@   at-panic #0 oob : delta < -2147483647 || delta > 2147483647
 //@   loop 0 invariant poll : icalls("(*ChanPubSub).markBroken") == 0 && atomics() == 0 && delta < 0
 //@   ensures inspect : delta == 0 ==> atomics() == 1 && aop(0) == "Load" && subscribers == i64(apre(0))
 //@   ensures changed : delta != 0 ==> atomics() == 1 && aop(0) == "Add" && apost(0) == apre(0) + i32(delta) && subscribers == i64(apost(0))
